@@ -92,6 +92,16 @@ def setup():
   gin.register(Km)
   TARGETS['Km.meth'] = dict(call=lambda: gin.get_configurable(Km)().meth(), sig=['a', 'b'], varkw=False,
                             lists={'denylist': ['b']})
+  # a registered static method of a registered class: its first parameter is an ordinary parameter
+  exec('class Ks:\n  def __init__(self):\n    pass\n'
+       '  @staticmethod\n  def make(a="da", b="db"):\n    REC.append(("Ks.make", gin.current_scope_str(), dict(a=a, b=b)))\n', ns)  # pylint: disable=exec-used
+  Ks = ns['Ks']
+  Ks.__module__ = 'c11'
+  Ks.make.__module__ = 'c11'
+  Ks.make.__qualname__ = 'Ks.make'
+  gin.register(Ks.make)
+  gin.register(Ks)
+  TARGETS['Ks.make'] = dict(call=lambda: gin.get_configurable(Ks)().make(), sig=['a', 'b'], varkw=False, lists={})
   # a module used through dynamic registration (classes partly registered statically with lists)
   import atexit, os, shutil, sys, tempfile  # pylint: disable=import-outside-toplevel,multiple-imports
   d = tempfile.mkdtemp(prefix='c11_')
@@ -230,6 +240,8 @@ def observe(tname):
 
 def run_case(case, res):
   tname, spelling, param, scope, path = case
+  if tname == 'Km.meth' and param == 'self':
+    return   # not prescribed: the configurable `Km.meth` is the plain function, whose signature does name `self`
   harness.hard_reset()
   gin.parse_config("c11.pre_fn.x = 'pre'\ns/c11.pre_fn.x = 'pres'\nc11.pre_fn.y = [1, 2]")
   ok, why = accepts(tname, spelling, param)
